@@ -32,6 +32,29 @@ INITIALLY_MISSED = {  # seeded changes the checks did not catch when first run a
     "C15-r3-1": "one fit() per hedger; now a second fit() on the same hedger with the same optimiser argument",
     "C18-r3-3": "tiny t and v whose product underflows (both non-zero) were not on the boundary grid; added 1e-30 x 1e-31 (float32) and 1e-300 x 1e-200 (float64)",
     "C19-1": "bracket tensors used once; now a second search with the same bracket objects vs fresh copies (differential)",
+    "C04-r4-2": "all columns of a batched sample had the same scale; columns of mixed scale (1e-3..1e6) with the bound checked per column at that column's own search precision",
+    "C06-r4-1": "cash() searched only with library criteria; a user criterion (mean-std over dim 0) whose value on one row differs from its value on the sample added",
+    "C09-r4-1": "boundary elements were evaluated in homogeneous batches; new differential `price_surface`/`batch_independence`: every element of a mixed batch (boundary + interior points) equals its value computed alone",
+    "C10-r4-3": "Vasicek kappa*horizon stayed below ~10; kappa in {20,100,300} (strong mean reversion) added",
+    "C11-r4-1": "NOT covered on purpose: manifests only for a bare scalar `init_state=0.0` passed to generate_cir, outside the documented tuple signature; the generator stays within documented inputs",
+    "C11-r4-2": "same range gap as C10-r4-3 for the finiteness clause: kappa in {50,200,1000} added to the simulator histories",
+    "C11-r4-3": "volatility was always positive; sigma=0 (deterministic paths, still n_paths rows) added",
+    "C12-r4-3": "clause names were registered once; a clause re-registered under an existing name (replacement) added, expected order/values follow dict semantics",
+    "C15-r4-1": "criteria in fit protocols had no parameters of their own; OCE (trainable w, must move under fit) added",
+    "C15-r4-2": "fit() was entered with hedger and model in the same mode; mismatched modes (hedger.eval() with model.train() and vice versa) added",
+    "C17-r4-2": "cast aliases were exercised on primaries only; derivative-level aliases (bfloat16/half/double/float via the derivative) added to the exhaustive alphabet",
+    "C17-r4-3": "a fresh hedger per history; a long-lived state-dependent hedger (its previous outputs in another dtype) is now reused across casts",
+    "C20-r4-2": "cost rate fixed before the modules were built; `late_cost` (cost set on the instrument after constructing hedger / WhalleyWilmott) added",
+    "C03-r4-2": "underlier always simulated through the derivative (horizon = maturity); second round now simulates the underlier over a longer horizon",
+    "C07-r4-1": "bound modules called with no/one/all arguments on integral maturity/dt only; caught after partial-argument + non-integral grids were combined (batch_independence round)",
+    "C13-r4-2": "hedge-grid check used one hedging instrument; H=2 with a column-distinguishing model added (entry [n,h,t] vs features at t)",
+    "C13-r4-3": "maturity 0 (single time point) was mapped to dt by the generator; now generated as such",
+    "C14-r4-2": "no model with a clamp whose bound depends on a parameter; `capped` model (Clamp/LeakyClamp, number floor + learned tensor cap, kink-aware) added",
+    "C14-r4-3": "no parameter-free ModuleOutput feature fed with prev_hedge; `band feature` added (gradient flows through the feature)",
+    "C16-r4-1": "listed quotes compared only between long-lived and fresh hedgers (both see the same memo); each listed instrument's quote now compared with its own pricer after other quotes were read, in both orders",
+    "C16-r4-2": "buffers compared by name before/after; tensors held by the caller across a re-simulation must now stay bitwise intact",
+    "C16-r4-3": "histories had no caller-side backward; op `backward` leaves stale .grad before fit (fresh reference has none)",
+    "C18-r4-1": "boundary elements evaluated in homogeneous batches; `mixed_batches` differential added",
 }
 
 
